@@ -5,7 +5,7 @@ observed output, and answers one line per record:
   `ok <flags…>` | `DISAGREE <kind> model=<…> impl=<…>` | `ORACLE-FAIL <property> <detail>` |
   `KNOWN <property> <signature> …` | `BADREC <kind>`.
 -/
-import Driver.Stages3
+import Driver.E2E
 open Pm Drv
 
 def handle (line : String) : String :=
@@ -25,6 +25,9 @@ def handle (line : String) : String :=
       | "TRH" => some handleTRH
       | "TRT" => some handleTRT
       | "TP" => some handleTP
+      | "E2E" => (match ts.head? with
+          | some "S" => some (fun ts => handleE2E strE2E (ts.drop 1))
+          | _ => none)
       | _ => none
     match p with
     | none => s!"BADREC unknown-kind {kind}"
